@@ -42,14 +42,17 @@ OLD_VARIANTS = ["bare", "bare_default", "cache", "cache_default", "early", "soft
 # two-parameter function f2(s, k):  "omit" - key template "sf:{k}" leaves `s` out;  "all" - default template, both in the key
 TWO_PARAM = {"bare_omit": "omit", "cache_omit": "omit", "early_omit": "omit", "soft_omit": "omit", "cache_lock_omit": "omit",
              "cache_omit_obj": "omit", "early_omit_obj": "omit", "cache_omit_gated": "omit",
-             "bare_default2": "all", "cache_default2": "all", "early_default2": "all"}
-VARIANTS = OLD_VARIANTS + list(TWO_PARAM)
+             "bare_default2": "all", "cache_default2": "all", "early_default2": "all", "early_fg_omit": "omit"}
+# early_fg*: early(background=False) - the execution that starts a recalculation awaits it
+VARIANTS = OLD_VARIANTS + list(TWO_PARAM) + ["early_fg"]
 OMIT = [v for v in TWO_PARAM if TWO_PARAM[v] == "omit"]
 ALLARGS = [v for v in TWO_PARAM if TWO_PARAM[v] == "all"]
 CACHING = {v: not v.startswith("bare") for v in VARIANTS}
 # *_gated: the backend parks the execution right after a cache lookup that missed and right before it stores the
 # result, so the execution is in flight - and callers arrive - while the wrapped body is not (yet / any more) running
 GATED = {v: v.endswith("_gated") for v in VARIANTS}
+EARLY = {v: v.startswith("early") for v in VARIANTS}
+FOREGROUND = {v: v.startswith("early_fg") for v in VARIANTS}
 CANCEL_MODES = 3
 
 
@@ -78,6 +81,20 @@ DEFAULT_TTL_TICKS = TTL * TICKS_PER_S
 # behaviours of C02/C14, not single-flight; here a stored value is a hit exactly as long as the backend holds it
 FAR_TTL = 4096
 MAX_RUN_TICKS = 2048
+
+
+def early_ticks(case) -> int:
+    """early_ttl (= soft_ttl) of the case in ticks.  A case may give one to `early` ("early_ttl": ticks < ttl): then stored
+    values go stale before they expire and stale hits start RECALCULATIONS (bodies outside thunder_protection's table).
+    Otherwise it is out of reach: 512 s when no time passes, 4096 s in timed cases.  The gated backend keeps it out of
+    reach (an execution parked between its lookup and its `recalculations` check is not modelled); so does `soft`."""
+    v = case["variant"]
+    if "early_ttl" in case and EARLY[v] and not GATED[v]:
+        t = int(case["early_ttl"])
+        if t <= 0 or t % TICKS_PER_S:
+            raise HarnessError(f"C07 case: early_ttl must be a positive multiple of {TICKS_PER_S} ticks, not {t}")
+        return t
+    return (FAR_TTL if "ttl" in case else INNER_TTL) * TICKS_PER_S
 
 
 def ttl_ticks(case) -> int:
@@ -247,8 +264,8 @@ def _build(variant: str, body, TTL, INNER_TTL):
         cache.setup(gate_backend() if GATED[variant] else "mem://")
         if variant in ("cache_omit", "cache_omit_obj", "cache_omit_gated"):
             g = cache.cache(ttl=TTL, key="sf:{k}")(f2)
-        elif variant in ("early_omit", "early_omit_obj"):
-            g = cache.early(ttl=TTL, early_ttl=INNER_TTL, key="sf:{k}")(f2)
+        elif variant in ("early_omit", "early_omit_obj", "early_fg_omit"):
+            g = cache.early(ttl=TTL, early_ttl=INNER_TTL, key="sf:{k}", background=not FOREGROUND[variant])(f2)
         elif variant == "soft_omit":
             g = cache.soft(ttl=TTL, soft_ttl=INNER_TTL, key="sf:{k}")(f2)
         elif variant == "cache_lock_omit":
@@ -256,7 +273,7 @@ def _build(variant: str, body, TTL, INNER_TTL):
         elif variant == "cache_default2":
             g = cache(ttl=TTL)(f2)
         elif variant == "early_default2":
-            g = cache.early(ttl=TTL, early_ttl=INNER_TTL)(f2)
+            g = cache.early(ttl=TTL, early_ttl=INNER_TTL, background=not FOREGROUND[variant])(f2)
         else:
             raise ValueError(variant)
         return g, cache
@@ -270,8 +287,8 @@ def _build(variant: str, body, TTL, INNER_TTL):
         g = cache.cache(ttl=TTL, key="sf:{k}")(f)
     elif variant == "cache_default":
         g = cache(ttl=TTL)(f)
-    elif variant in ("early", "early_gated"):
-        g = cache.early(ttl=TTL, early_ttl=INNER_TTL, key="sf:{k}")(f)
+    elif variant in ("early", "early_gated", "early_fg"):
+        g = cache.early(ttl=TTL, early_ttl=INNER_TTL, key="sf:{k}", background=not FOREGROUND[variant])(f)
     elif variant in ("soft", "soft_gated"):
         g = cache.soft(ttl=TTL, soft_ttl=INNER_TTL, key="sf:{k}")(f)
     elif variant == "cache_lock":
@@ -292,6 +309,7 @@ def execute(case: dict, cancel_budget: int = 0, tick_budget: int = 0, tick_sizes
     schedule = [tuple(e) if isinstance(e, list) else e for e in case.get("schedule", [])]
     sched = SfSched(schedule, cancel_budget=cancel_budget, tick_budget=tick_budget, tick_sizes=tick_sizes)
     sched.log = run.events.append
+    sched.split_bursts = "early_ttl" in case and EARLY[variant] and not GATED[variant]
     _CURRENT[0] = sched
 
     async def end_cancelled(mode):
@@ -342,10 +360,9 @@ def execute(case: dict, cancel_budget: int = 0, tick_budget: int = 0, tick_sizes
             TASK_ID.reset(tok)
 
     ttl = ttl_ticks(case)
-    timed = "ttl" in case
 
     async def main():
-        f, cache = build(variant, body, ttl // TICKS_PER_S, FAR_TTL if timed else INNER_TTL)
+        f, cache = build(variant, body, ttl // TICKS_PER_S, early_ticks(case) // TICKS_PER_S)
 
         def prog(cid, k, n, kind, val, arg=0):
             async def go():
